@@ -214,11 +214,23 @@ theorem carries_false_iff (r : DReq) : r.carries = false ↔ r.sub = [] ∧ r.un
   cases r.sub <;> cases r.unsub <;> simp
 
 /-- A send never touches the recorded names of a named type. -/
+theorem sentNames_named (t : Ty) (gen : List String) (hw : t.wildcard = false) : sentNames t gen = none := by
+  simp [sentNames, Ty.setsWatched, hw]
+
+/-- A send never touches the recorded names of a type whose record is not rewritten by pushes. -/
 theorem sendDelta_names (s : State) (t : Ty) (n : String) (ok : Bool) (prev : WR) (hprev : s t = some prev) :
     ∃ w, sendDelta s t n none ok t = some w ∧ w.names = prev.names := by
   unfold sendDelta
   cases ok
   · exact ⟨prev, by simpa using hprev, rfl⟩
   · exact ⟨{ prev with nonceSent := n }, by simp [hprev], rfl⟩
+
+/-- A send never touches the forced-response mark. -/
+theorem sendDelta_always (s : State) (t : Ty) (n : String) (nn : Option (List String)) (ok : Bool) (prev : WR)
+    (hprev : s t = some prev) : ∃ w, sendDelta s t n nn ok t = some w ∧ w.always = prev.always := by
+  unfold sendDelta
+  cases ok
+  · exact ⟨prev, by simpa using hprev, rfl⟩
+  · cases nn <;> simp [hprev]
 
 end IstioModel.C04
